@@ -23,6 +23,18 @@ void harness(void) {
     if (which == 0) { cif_value_free(orig); orig = NULL; bad = 0; same(SHAPE, witness, copy); V_ASSERT(!bad, "releasing the original leaves the clone intact"); }
     else if (which == 1) { cif_value_free(copy); copy = NULL; bad = 0; same(SHAPE, witness, orig); V_ASSERT(!bad, "releasing the clone leaves the original intact"); }
     else if (which == 2) { rc = cif_value_init(copy, CIF_NA_KIND); V_ASSERT(rc == CIF_OK, "re-initialisation succeeds"); bad = 0; same(SHAPE, witness, orig); V_ASSERT(!bad, "re-initialising the clone leaves the original intact"); }
+    else if (which == 4) {   /* the clone is a list in its own right: it can be extended (it owns room for what its bookkeeping says it owns) */
+        size_t n0 = 0, n1 = 0, no = 0; int room_ok; cif_value_get_element_count(copy, &n0);
+        /* representation invariant of a list: the element array holds at least `capacity` slots (an insert below capacity does not reallocate) */
+        room_ok = (copy->kind != CIF_LIST_KIND) || (copy->as_list.capacity == 0) || (copy->as_list.elements != NULL
+                   && __CPROVER_OBJECT_SIZE(copy->as_list.elements) >= copy->as_list.capacity * sizeof(cif_value_tp *));
+        V_ASSERT(room_ok, "the clone's capacity does not exceed the room its element array has");
+        if (room_ok) {
+        rc = cif_value_insert_element_at(copy, n0, NULL); V_ASSERT(rc == CIF_OK, "an element can be appended to the clone");
+        rc = cif_value_insert_element_at(copy, 0, NULL); V_ASSERT(rc == CIF_OK, "an element can be inserted into the clone");
+        cif_value_get_element_count(copy, &n1); cif_value_get_element_count(orig, &no);
+        V_ASSERT(n1 == n0 + 2 && no == n0, "extending the clone changes the clone only");
+        bad = 0; same(SHAPE, witness, orig); V_ASSERT(!bad, "extending the clone leaves the original intact"); } }
     else { rc = cif_value_init(orig, CIF_LIST_KIND); V_ASSERT(rc == CIF_OK, "re-initialisation succeeds"); bad = 0; same(SHAPE, witness, copy); V_ASSERT(!bad, "re-initialising the original leaves the clone intact"); }
     cif_value_free(orig); cif_value_free(copy); cif_value_free(witness);    /* leak check: every (re)initialisation released the previous content */
     V_COVER("end");
